@@ -6,6 +6,7 @@ from ..model import UNKNOWN, call_name, kwarg, unparse
 from ..report import AnalysisError
 from ..spectyping import Typing
 from ..units import Q, parse_units
+from ..astutil import assignments, dim_arg
 
 # statistic -> (attributes.yml key for the CF units | explicit unit dict, remaining spectral dims)
 ORACLE = {
@@ -386,9 +387,155 @@ def literal_axes(repo, rep, rule):
     return n_
 
 
+_PASS = ("rename", "fillna", "where", "astype", "squeeze", "transpose", "isel", "sel", "chunk", "copy", "load", "compute", "drop_vars", "expand_dims",
+         "reset_coords", "sortby", "persist", "assign_coords", "real", "sum", "mean")
+
+
+def freq_measure(repo, rep, rule):
+    """R-C01-15: a sum over the frequency axis approximates an integral only if every summand carries its own bin width (the frequency widths are an
+    array: log-spaced and irregular grids are in the quantifier), so the operand of every frequency sum in the integrated statistics must contain the
+    widths as a factor of every term.  (The direction width is one scalar on the uniform direction grid and may multiply the sum afterwards.)"""
+    sa_mod = repo.module("wavespectra.specarray")
+    np_mod = repo.module("wavespectra.core.npstats")
+    scope = [fi for fi in sa_mod.all_funcs() if fi.cls is not None and fi.cls.name == "SpecArray"]
+    np_scope = [fi for fi in np_mod.all_funcs() if fi.cls is None and fi.name in ("hs", "dm", "mom1")]
+    if len(np_scope) != 3:
+        raise AnalysisError("R-C01-15: numpy twins hs/dm/mom1 not found (anchor vanished)")
+    by_short = {fi.name: fi for fi in scope}
+    np_by_short = {fi.name: fi for fi in np_mod.all_funcs() if fi.cls is None}
+
+    def is_freq_sum(fi, c):
+        """Returns the summed operand when `c` is a reduction by summation along frequency, else None."""
+        if not isinstance(c, ast.Call):
+            return None
+        xr_level = fi.module.name == "wavespectra.specarray"
+        if isinstance(c.func, ast.Attribute) and c.func.attr == "sum" and not (isinstance(c.func.value, ast.Name) and c.func.value.id in ("np", "numpy")):
+            if xr_level:
+                d = dim_arg(c)
+                v = repo.const(fi.module, d) if d is not None else None
+                if v == "freq" or (isinstance(v, (list, tuple)) and "freq" in v):
+                    return c.func.value
+                return None
+            ax = kwarg(c, "axis") or (c.args[0] if c.args else None)
+            v = repo.const(fi.module, ax) if ax is not None else None
+            if ax is None or v == 0:
+                return c.func.value
+            return None
+        if not xr_level and call_name(c) in ("np.sum", "numpy.sum", "sum", "np.nansum") and c.args:
+            ax = kwarg(c, "axis") or (c.args[1] if len(c.args) > 1 else None)
+            v = repo.const(fi.module, ax) if ax is not None else None
+            if ax is None or v == 0:
+                return c.args[0]
+        return None
+
+    def tuple_binding(fi, name, before):
+        best = None
+        for a in ast.walk(fi.node):
+            if isinstance(a, ast.Assign) and len(a.targets) == 1 and isinstance(a.targets[0], ast.Tuple) and a.lineno < before:
+                for i, t in enumerate(a.targets[0].elts):
+                    if isinstance(t, ast.Name) and t.id == name and (best is None or a.lineno > best[0].lineno):
+                        best = (a, i)
+        return best
+
+    def is_width(fi, e):
+        if isinstance(e, ast.Attribute) and e.attr == "df" and isinstance(e.value, ast.Name) and e.value.id == "self":
+            return True
+        names = {n.id for n in ast.walk(e) if isinstance(n, ast.Name)} - {"np", "numpy", "abs", "self"}
+        attrs_ = {n.attr for n in ast.walk(e) if isinstance(n, ast.Attribute) and isinstance(n.value, ast.Name) and n.value.id == "self"}
+        if not (names | attrs_) or not (names | attrs_) <= {"freq"}:
+            return False
+        for n in ast.walk(e):
+            if isinstance(n, ast.Call) and call_name(n) in ("np.diff", "np.gradient", "numpy.diff", "numpy.gradient", "np.ediff1d"):
+                return True
+            if isinstance(n, ast.BinOp) and isinstance(n.op, ast.Sub) and isinstance(n.left, ast.Subscript) and isinstance(n.right, ast.Subscript):
+                return True
+        return False
+
+    def has(fi, e, before, idx=None, depth=0, prov=None):
+        """True when every term of `e` (a value still spanning frequency) carries the frequency bin widths as a factor."""
+        if depth > 12:
+            return False
+        if is_width(fi, e):
+            return True
+        if isinstance(e, ast.Name):
+            cands = [a for a in assignments(fi.node, e.id) if a.lineno < before]
+            tb = tuple_binding(fi, e.id, before)
+            if cands and (tb is None or max(c.lineno for c in cands) > tb[0].lineno):
+                a = max(cands, key=lambda x: x.lineno)
+                return has(fi, a.value, a.lineno, None, depth + 1, prov)
+            if tb is not None:
+                a, i = tb
+                if isinstance(a.value, ast.Tuple) and i < len(a.value.elts):
+                    return has(fi, a.value.elts[i], a.lineno, None, depth + 1, prov)
+                return has(fi, a.value, a.lineno, i, depth + 1, prov)
+            return False
+        if isinstance(e, ast.Tuple) and idx is not None and idx < len(e.elts):
+            return has(fi, e.elts[idx], before, None, depth + 1, prov)
+        if isinstance(e, ast.BinOp):
+            if isinstance(e.op, (ast.Mult, ast.MatMult)):
+                return has(fi, e.left, before, None, depth + 1, prov) or has(fi, e.right, before, None, depth + 1, prov)
+            if isinstance(e.op, (ast.Div, ast.Pow)):
+                return has(fi, e.left, before, None, depth + 1, prov)
+            if isinstance(e.op, (ast.Add, ast.Sub)):
+                return has(fi, e.left, before, None, depth + 1, prov) and has(fi, e.right, before, None, depth + 1, prov)
+            return False
+        if isinstance(e, ast.UnaryOp):
+            return has(fi, e.operand, before, None, depth + 1, prov)
+        if isinstance(e, ast.Subscript):
+            return has(fi, e.value, before, idx, depth + 1, prov)
+        if isinstance(e, ast.IfExp):
+            return has(fi, e.body, before, idx, depth + 1, prov) and has(fi, e.orelse, before, idx, depth + 1, prov)
+        if isinstance(e, ast.Call):
+            if is_freq_sum(fi, e) is not None:
+                return False          # the measure was consumed by that sum: what is left is a number per spectrum
+            cn = call_name(e)
+            callee = None
+            if isinstance(e.func, ast.Attribute) and isinstance(e.func.value, ast.Name) and e.func.value.id == "self":
+                callee = by_short.get(e.func.attr)
+            elif cn in np_by_short and fi.module.name == "wavespectra.core.npstats":
+                callee = np_by_short[cn]
+            elif cn and cn.split(".")[-1] in np_by_short and cn.split(".")[0] in ("npstats",):
+                callee = np_by_short[cn.split(".")[-1]]
+            if callee is not None:
+                if prov is not None:
+                    prov.append(f"{callee.name}(){'' if idx is None else '[%d]' % idx}")
+                rets = [r for r in ast.walk(callee.node) if isinstance(r, ast.Return) and r.value is not None]
+                return bool(rets) and all(has(callee, r.value, r.lineno + 1, idx, depth + 1, None) for r in rets)
+            if isinstance(e.func, ast.Attribute) and e.func.attr in _PASS:
+                return has(fi, e.func.value, before, idx, depth + 1, prov)
+            if cn in ("np.squeeze", "np.abs", "abs", "np.asarray", "np.nan_to_num", "np.real") and e.args:
+                return has(fi, e.args[0], before, idx, depth + 1, prov)
+            return False
+        return False
+
+    n = 0
+    for fi in scope + np_scope:
+        k = 0
+        for c in sorted((x for x in ast.walk(fi.node) if isinstance(x, ast.Call)), key=lambda x: (x.lineno, x.col_offset)):
+            operand = is_freq_sum(fi, c)
+            if operand is None:
+                continue
+            n += 1
+            prov = []
+            good = has(fi, operand, c.lineno + 1, None, 0, prov)
+            if good:
+                rep.ok(rule, f"{fi.file}:{c.lineno} {fi.short}", unparse(c)[:80], "every term of the summed operand carries the frequency bin widths")
+            else:
+                src = prov[0] if prov else f"#{k}"
+                rep.fail(rule, fi.file, c.lineno, fi.qualname, unparse(c)[:100],
+                         "a sum over the frequency axis whose operand does not carry the frequency bin widths: on a log-spaced or irregular frequency grid the "
+                         "bins enter with equal weight instead of their widths, so the result is not the defining integral (the direction width is a scalar; "
+                         "the frequency widths are not)", anchor=f"{fi.name}:unweighted-freq-sum:{src}")
+            k += 1
+    return n
+
+
 def run(repo, rep, tier):
     rep.rule("R-C01-12", "in the numpy-level statistics the axis of every reduction is a literal (the kernels get (freq, dir) arrays by contract), never derived from shapes")
     rep.floor("R-C01-12", "axis arguments in npstats", literal_axes(repo, rep, "R-C01-12"), 3)
+    rep.rule("R-C01-15", "every sum over the frequency axis inside an integrated statistic (accessor methods and the numpy twins hs / dm / mom1) has an operand each of whose "
+                         "terms carries the frequency bin widths (self.df, or differences of the frequency coordinate): the widths are an array, so they cannot be applied after the sum")
+    rep.floor("R-C01-15", "frequency sums in the integrated statistics", freq_measure(repo, rep, "R-C01-15"), 12)
     rep.rule("R-C01-13", "(shared with C10) the mean direction is (270 - atan2(..) in degrees) reduced modulo 360 as the outermost operation (precedence included)")
     from .c10 import mod360_last as _m360
     from .c07 import _Relabel
